@@ -43,10 +43,10 @@ func init() {
 		"(*sync.WaitGroup).Add":  nop,
 		"(*sync.WaitGroup).Done": nop,
 		"(*sync.WaitGroup).Wait": waitGroupWait,
-		"(*sync.Mutex).Lock":     nop,
-		"(*sync.Mutex).Unlock":   nop,
-		"(*sync.RWMutex).Lock":   nop,
-		"(*sync.RWMutex).Unlock": nop,
+		"(*sync.Mutex).Lock":     lockAcquire,
+		"(*sync.Mutex).Unlock":   lockRelease,
+		"(*sync.RWMutex).Lock":   lockAcquire,
+		"(*sync.RWMutex).Unlock": lockRelease,
 		"(*sync.RWMutex).RLock":  nop,
 		"(*sync.RWMutex).RUnlock": nop,
 		"(*sync.Once).Do":        syncOnceDo,
@@ -583,6 +583,25 @@ func waitGroupWait(fr *frame, a []value) value {
 				panic(targetPanic{fmt.Sprintf("deadlock: sync.WaitGroup.Wait while %d goroutine(s) are blocked sending on a channel of capacity %d that only the waiting goroutine could drain", len(ch.q)-ch.cap, ch.cap)})
 			}
 		}
+	}
+	return nil
+}
+
+func lockAcquire(fr *frame, a []value) value {
+	c := fr.i.ctx
+	if p, ok := a[0].(*value); ok && p != nil {
+		if c.held == nil {
+			c.held = map[*value]int{}
+		}
+		c.held[p]++
+	}
+	return nil
+}
+
+func lockRelease(fr *frame, a []value) value {
+	c := fr.i.ctx
+	if p, ok := a[0].(*value); ok && p != nil && c.held[p] > 0 {
+		c.held[p]--
 	}
 	return nil
 }
